@@ -178,6 +178,20 @@ where
             .ok_or_else(|| StorageError::FolderNotFound(*folder_id))?;
         folder.force_merge(&diff).await?;
 
+        // The folder was replaced so the documents indexed
+        // for it are stale, index the new contents
+        #[cfg(feature = "search")]
+        {
+            let access_point = folder.access_point();
+            if let Some(index) = self.0.search_index() {
+                let search = index.search();
+                let mut search = search.write().await;
+                search.remove_vault(folder_id);
+                let access_point = access_point.lock().await;
+                search.add_folder(&access_point).await?;
+            }
+        }
+
         outcome.changes += len;
         outcome.tracked.add_tracked_folder_changes(
             folder_id,
